@@ -55,9 +55,12 @@ func (o *offsetDB) load() (fpOffsets, error) {
 	if os.IsNotExist(err) {
 		return make(fpOffsets), nil
 	}
+	if err != nil {
+		return make(fpOffsets), fmt.Errorf("can't stat offsets file %s: %w", o.curOffsetsFile, err)
+	}
 
 	if info.IsDir() {
-		logger.Fatalf("can't load offsets, file %s is dir")
+		logger.Fatalf("can't load offsets, file %s is dir", o.curOffsetsFile)
 	}
 
 	content, err := os.ReadFile(o.curOffsetsFile)
@@ -177,6 +180,9 @@ func (o *offsetDB) parseStreams(content string, streams streamsOffsets) (string,
 			return "", fmt.Errorf("wrong offsets format, duplicate stream %q", stream)
 		}
 
+		if pos+2 > len(line) {
+			return "", fmt.Errorf("wrong offsets format, no offset %q", line)
+		}
 		offsetStr := line[pos+2:]
 		offset, err := strconv.ParseInt(offsetStr, 10, 64)
 		if err != nil {
